@@ -47,6 +47,15 @@ def build_units(g):
     u = [g.fn_text("actor.rs", S.top("actor.rs", "fn", "run_actor_lifecycle"), "actor.rs::run_actor_lifecycle")]
     units.append(("lifecycle", "\n".join(u)))
 
+    # ---------------- spawn / capacity (lib.rs)
+    u = [g.fn_text("lib.rs", S.top("lib.rs", "fn", n), "lib.rs::" + n)
+         for n in ("set_default_mailbox_capacity", "spawn", "spawn_with_mailbox_capacity")]
+    units.append(("spawn", "\n".join(u)))
+
+    # ---------------- dead letters
+    u = [g.fn_text("dead_letter.rs", S.top("dead_letter.rs", "fn", "record"), "dead_letter.rs::record")]
+    units.append(("dead_letter", "\n".join(u)))
+
     # ---------------- ActorRef / ActorWeak (actor_ref.rs)
     aref = S.impl("actor_ref.rs", lambda h: h == norm("impl<T: Actor> ActorRef<T>"))
     names = g.specs.ACTOR_REF_FNS(g.features)
